@@ -1,8 +1,18 @@
 /-
-  C15 — show/look and print/scan round-trip values.  (under construction: theorems are added below)
+  C15 — show/look and print/scan round-trip values.
+
+  Property theorems only (helper lemmas: CelloProofs/Lemmas/Text.lean, TextSeq.lean).
+  Model: Cello/Text.lean.  `srcCfg` collects what the translator reads from the source on every run (CelloGen/Text.lean):
+  the two escape tables of String_Show / String_Look, the delimiter and escape bytes, whether the reader's escape arm ends in
+  `continue` (fix d6bdde9), and what scan_from_with adds to `pos` for `%%`.
+
+  Float: there is deliberately no theorem about the *value* read back ("%f"/"%lf" are libc conversions whose exact model,
+  `printF` / `scanDouble`, is only validated against the implementation); see the evidence's level_note.
 -/
 import Cello.Text
 import CelloGen.Text
+import CelloProofs.Lemmas.Text
+import CelloProofs.Lemmas.TextSeq
 
 namespace Cello.Text
 
@@ -14,7 +24,147 @@ theorem C15_source_as_modelled :
     CelloGen.Text.printToWith = CelloGen.Text.printToWithModelled ∧
     CelloGen.Text.stringFormatFrom = CelloGen.Text.stringFormatFromModelled ∧
     CelloGen.Text.fileFormatFrom = CelloGen.Text.fileFormatFromModelled ∧
-    CelloGen.Text.fileFormatTo = CelloGen.Text.fileFormatToModelled := by
-  refine ⟨rfl, rfl, rfl, rfl, rfl, rfl, rfl⟩
+    CelloGen.Text.fileFormatTo = CelloGen.Text.fileFormatToModelled ∧
+    CelloGen.Text.intShowFmt = "%li" ∧ CelloGen.Text.intLookFmt = "%li" ∧
+    CelloGen.Text.floatShowFmt = "%f" ∧ CelloGen.Text.floatLookFmt = "%lf" := by
+  refine ⟨rfl, rfl, rfl, rfl, rfl, rfl, rfl, rfl, rfl, rfl, rfl⟩
+
+/-- **Table facts, decided on the generated tables**: every byte `String_Show` escapes is written as the reader's escape byte
+    plus a letter that `String_Look` maps back to exactly that byte; the closing delimiter and the escape byte are themselves
+    escaped by the writer (so a raw one never appears inside the text); they differ; both sides agree on the delimiters; and
+    the reader's escape arm ends in `continue`. -/
+theorem C15_tables : tablesOK srcCfg = true ∧ srcCfg.look.continues = true := by
+  constructor
+  · decide
+  · rfl
+
+/-- **C15 for String (T1).**  For every byte string `s` without NUL, every text `rest` that follows and every position counter:
+    `String_Look` applied to what `String_Show` wrote for `s`, followed by `rest`, yields exactly `s`, leaves exactly `rest`
+    unread, and advances the position by exactly the number of characters written. -/
+theorem C15_string_roundtrip (s : List Nat) (hs : ∀ b ∈ s, b ≠ 0) (rest : List Nat) (pos : Nat) :
+    let shown := showString srcCfg.showEsc srcCfg.showOpen srcCfg.showClose s
+    lookString srcCfg.look (shown ++ rest) pos = (s, .ok (rest, pos + shown.length)) :=
+  lookString_show srcCfg (tables_of_ok _ C15_tables.1) C15_tables.2 s hs rest pos
+
+/-- **C15 for Int (T1).**  For every `int64_t` `n` and every following text that does not start with a digit (nor with `x`/`X`
+    after a lone `0`, which `%li` would take for a hexadecimal prefix): scanf's `%li` applied to what `%li` printed, followed by
+    that text, yields `n` and leaves exactly that text unread. -/
+theorem C15_int_roundtrip (n : Int) (hn : -(2 ^ 63 : Int) ≤ n ∧ n < 2 ^ 63) (rest : List Nat)
+    (hd : ∀ b r, rest = b :: r → ¬(48 ≤ b ∧ b ≤ 57)) (hx : n = 0 → ∀ b r, rest = b :: r → b ≠ 120 ∧ b ≠ 88) :
+    scanLong true (printInt n ++ rest) = .ok (n, rest) := by
+  apply scanLong_printInt true n (by simp only [inInt64, Bool.and_eq_true, decide_eq_true_eq]; exact hn) rest
+  cases rest with
+  | nil => simp [intSafe, headIs]
+  | cons b r =>
+    have h1 := hd b r rfl
+    simp only [intSafe, headIs, isDigit, Bool.and_eq_true, Bool.not_eq_true', Bool.and_eq_false_iff, decide_eq_false_iff_not,
+      Nat.not_le, beq_eq_false_iff_ne, Bool.or_eq_false_iff, Bool.true_and]
+    refine ⟨by omega, ?_⟩
+    by_cases h0 : n = 0
+    · have := hx h0 b r rfl
+      exact Or.inr ⟨this.1, this.2⟩
+    · exact Or.inl (by simpa using h0)
+
+/-- the same for the numeric specification `%ld` (decimal only: a following `x` is harmless) -/
+theorem C15_int_roundtrip_ld (n : Int) (hn : -(2 ^ 63 : Int) ≤ n ∧ n < 2 ^ 63) (rest : List Nat)
+    (hd : ∀ b r, rest = b :: r → ¬(48 ≤ b ∧ b ≤ 57)) :
+    scanLong false (printInt n ++ rest) = .ok (n, rest) := by
+  apply scanLong_printInt false n (by simp only [inInt64, Bool.and_eq_true, decide_eq_true_eq]; exact hn) rest
+  cases rest with
+  | nil => simp [intSafe, headIs]
+  | cons b r =>
+    have h1 := hd b r rfl
+    simp only [intSafe, headIs, isDigit, Bool.and_eq_true, Bool.not_eq_true', Bool.and_eq_false_iff, decide_eq_false_iff_not,
+      Nat.not_le, Bool.false_and, Bool.not_false, and_true]
+    omega
+
+/-- **C15 for sequences (T1), String and File alike, every start position.**  Let `its` be any sequence of Strings, Ints
+    (shown with `%$`, `%li` or `%ld`) and separators inside the contract (`contractOK`: NUL-free strings, 64-bit integers,
+    separators without `%`; a number is not followed by text that continues it; a separator read from a File that ends in
+    white space is not followed by white space), written by `print_to_with` at the end of a sink holding any bytes `pre`
+    (start position `pre.length`), and let any text `z` follow.  Then
+    * the sink holds `pre` followed by exactly the concatenation of the items' texts and the writer returns the start
+      position plus the number of characters written;
+    * `scan_from_with` started at the same position returns exactly the values written, in order;
+    * it returns the same position the writer returned, and a File's stream has moved by exactly the characters written. -/
+theorem C15_sequence_roundtrip (k : Kind) (pre : List Nat) (its : List Item) (z : List Nat)
+    (hc : contractOK srcCfg k its z = true) (hnf : ∀ it ∈ its, it.isFloat = false) :
+    let text := its.flatMap (Item.text srcCfg)
+    let inp : Input := { kind := k, text := pre ++ text ++ z, cur := pre.length }
+    printItems srcCfg { kind := k, data := pre } pre.length its = ({ kind := k, data := pre ++ text }, pre.length + text.length) ∧
+    scanItems srcCfg inp pre.length (its.map Item.shape)
+      = (its.filterMap Item.val?, .ok (inp.adv text.length, pre.length + text.length)) := by
+  intro text inp
+  constructor
+  · exact printItems_at_end srcCfg its { kind := k, data := pre }
+  · apply scanItems_text srcCfg (tables_of_ok _ C15_tables.1) C15_tables.2 k its z inp pre.length rfl hc hnf
+    cases k <;> simp [inp, text, Input.view, List.append_assoc]
+
+/-- a File's stream after the read is at start + number of characters written; a String has no stream -/
+theorem C15_file_stream_position (pre text z : List Nat) :
+    (({ kind := .file, text := pre ++ text ++ z, cur := pre.length } : Input).adv text.length).cur = pre.length + text.length := by
+  simp [Input.adv]
+
+/-- **A value alone** (`show_to` / `look_from` of one String or Int) at any start position of a String or a File, whatever
+    follows it (for an Int: anything that does not continue the number): the value comes back and the reader returns the
+    position the writer returned. -/
+theorem C15_single_value (k : Kind) (pre : List Nat) (v : Val) (z : List Nat)
+    (hv : (Item.shw v).valid = true) (hs : (Item.shw v).safe k z = true) (hf : (Item.shw v).isFloat = false) :
+    let text := (Item.shw v).text srcCfg
+    let inp : Input := { kind := k, text := pre ++ text ++ z, cur := pre.length }
+    printItem srcCfg { kind := k, data := pre } pre.length (.shw v) = ({ kind := k, data := pre ++ text }, pre.length + text.length) ∧
+    scanItem srcCfg inp pre.length (Item.shw v).shape = (some v, .ok (inp.adv text.length, pre.length + text.length)) := by
+  intro text inp
+  constructor
+  · exact printItem_at_end srcCfg { kind := k, data := pre } (.shw v)
+  · apply scanItem_text srcCfg (tables_of_ok _ C15_tables.1) C15_tables.2 k (.shw v) z inp pre.length rfl hv hs hf
+    cases k <;> simp [inp, text, Input.view, List.append_assoc]
+
+/-! ## non-vacuity -/
+
+/-- a sequence with quotes, a backslash, a newline, a negative number, separators with white space, read from a File, is in the
+    contract; and what the writer produces for it is the expected text -/
+example :
+    let its : List Item := [.shw (.str [10, 34, 92, 255]), .lit [44, 32], .li (-42), .lit [32], .shw (.int 0), .lit [59], .ld 7]
+    contractOK srcCfg .file its [120] = true ∧ (∀ it ∈ its, it.isFloat = false) ∧
+    its.flatMap (Item.text srcCfg) = [34, 92, 110, 92, 34, 92, 92, 255, 34, 44, 32, 45, 52, 50, 32, 48, 59, 55] := by
+  simp [contractOK, Item.valid, Item.safe, Item.text, Item.isFloat, intSafe, litSafe, inInt64, headIs, lastIs, isSpace, isDigit,
+    printInt, natDigits_lt10, natDigits_ge10, showString, showByte, srcCfg, CelloGen.Text.showEsc, CelloGen.Text.showOpen,
+    CelloGen.Text.showClose, List.lookup]
+
+/-- the hypotheses of the String theorem are met by a string of quotes, backslashes and control characters -/
+example : ∀ b ∈ [34, 92, 10, 7, 39, 63, 255, 1], b ≠ 0 := by decide
+
+/-! ## refutations: what the theorems exclude really fails -/
+
+/-- **The pre-fix reader (before d6bdde9) is refuted**: with the escape arm falling through (`continues := false`), the text
+    `String_Show` writes for the one-character string "\n" is read back as "\nn". -/
+theorem C15_look_refuted_prefix :
+    lookString { srcCfg.look with continues := false } (showString srcCfg.showEsc srcCfg.showOpen srcCfg.showClose [10]) 0
+      = ([10, 110], .ok ([], 4)) := by decide
+
+/-- the same input with the reader as it is now -/
+example : lookString srcCfg.look (showString srcCfg.showEsc srcCfg.showOpen srcCfg.showClose [10]) 0 = ([10], .ok ([], 4)) := by
+  decide
+
+/-- **Known finding KF-C15-pct-advance, refuted statement**: `%%` inside a scanned sequence.  `print_to(s, 0, "%li%%%li", 1, 2)`
+    writes `1%2` (3 characters); `scan_from` of the same format from that String adds 2 to `pos` for the single `%`, reads the
+    second number at position 3 (the end) and throws FormatError; from a File it reads both numbers but returns position 4. -/
+theorem C15_pct_refuted :
+    scanItems srcCfg { kind := .str, text := [49, 37, 50], cur := 0 } 0 [.li, .pct, .li] = ([.int 1, .int 77], .raised .FormatError) ∧
+    scanItems srcCfg { kind := .file, text := [49, 37, 50], cur := 0 } 0 [.li, .pct, .li]
+      = ([.int 1, .int 2], .ok ({ kind := .file, text := [49, 37, 50], cur := 3 }, 4)) := by
+  constructor <;> decide
+
+/-- … and `1%2` is what the writer produces for that sequence -/
+example : (printItems srcCfg { kind := .str, data := [] } 0 [.li 1, .pct, .li 2]) = ({ kind := .str, data := [49, 37, 50] }, 3) := by
+  simp [printItems, printItem, Item.text, Sink.put, printInt, natDigits_lt10]
+
+/-- out of contract on purpose: a number directly followed by a digit is read as a longer number -/
+example : scanLong true (printInt 12 ++ printInt 34) = .ok (1234, []) := by
+  simp [printInt, natDigits_lt10, natDigits_ge10]; decide
+
+/-- out of contract on purpose: `0` followed by `x` is taken for a hexadecimal prefix -/
+example : scanLong true ([48] ++ [120, 44]) = .ok (0, [44]) := by decide
 
 end Cello.Text
